@@ -175,6 +175,8 @@ def run(ctx: common.Run):
     check_noise_properties_measurements(ctx, cirq, 20 if ctx.tier == 'quick' else 300)
     check_circuit_superoperator(ctx, cirq, 25 if ctx.tier == 'quick' else 400)
     check_thermal(ctx, cirq, max(10, n // 3))
+    check_measured_noisy_circuits(ctx, cirq, 25 if ctx.tier == 'quick' else 300)
+    check_apply_channel_only(ctx, cirq)
 
 
 def check_conversions(ctx, cirq, n):
@@ -587,6 +589,128 @@ def check_circuit_superoperator(ctx, cirq, n):
             continue
         if got is None or got.shape != want.shape or not np.allclose(got, want, atol=1e-8):
             ctx.report_witness('circuit:superoperator', 'the superoperator of the circuit is not the product of its moments\' superoperators', dict(rep, impl_out=[None if got is None else list(got.shape)], spec_out=[list(want.shape)]))
+
+
+def check_measured_noisy_circuits(ctx, cirq, n):
+    """noisy circuits with mid-circuit measurements (computational on 1..3 qubits, Pauli products on 1..3 qubits) and resets: the final
+    states of the density-matrix simulator, averaged over the measurement outcomes with their probabilities, are the channel sequence
+    applied in order (a measurement whose result is averaged over is the projective channel); the same for state-vector trajectories.
+    Both with and without splitting of untangled states."""
+    rng = ctx.substream('measured-noisy')
+    cases = []
+    for _ in range(n):
+        nq = rng.choice([2, 3, 3])
+        qs = cirq.LineQubit.range(nq)
+        moments, nmeas, nch = [], 0, 0
+        for _ in range(rng.randint(2, 6)):
+            r = rng.random()
+            if r < 0.3 and nmeas < 2:
+                k = rng.randint(1, min(3, nq))
+                tq = rng.sample(qs, k)
+                if rng.random() < 0.6:
+                    ps = cirq.PauliString({q: rng.choice([cirq.X, cirq.Y, cirq.Z]) for q in tq}, coefficient=rng.choice([1, 1, -1]))
+                    moments.append(cirq.Moment(cirq.measure_single_paulistring(ps, key=f'p{nmeas}')))
+                else:
+                    moments.append(cirq.Moment(cirq.measure(*tq, key=f'm{nmeas}')))
+                nmeas += 1
+            elif r < 0.55 and nch < 2:
+                ch, k = rand_channel(cirq, rng)
+                if k <= nq:
+                    moments.append(cirq.Moment(ch.on(*rng.sample(qs, k))))
+                    nch += 1
+            else:
+                k = rng.choice([1, 2, 2])
+                g = {1: gen.one_qubit_gate, 2: gen.two_qubit_gate}[k](cirq, rng)
+                moments.append(cirq.Moment(g.on(*rng.sample(qs, k))))
+        if nmeas:
+            cases.append((cirq.Circuit(cirq.Moment(cirq.H.on_each(*qs[:2])), *moments), qs))
+    reqs = []
+    for circuit, qs in cases:
+        init = np.zeros(2 ** len(qs), dtype=complex)
+        init[0] = 1
+        reqs.append({'p': 'C02', 'op': 'dm', 'shape': [2] * len(qs), 'rho': [common.c2j(z) for z in np.outer(init, init).reshape(-1)], 'ops': lean_ops(cirq, circuit, qs)})
+    outs = ctx.driver.ask(reqs)
+    for (circuit, qs), out in zip(cases, outs):
+        want = rho_of(out)
+        ctx.case(['measured-noisy', repr(circuit)], True)
+        runs = [(f'DensityMatrixSimulator[split={sp}]', (lambda prng, sp=sp: cirq.DensityMatrixSimulator(seed=prng, dtype=np.complex128, split_untangled_states=sp)), 'dm') for sp in (True, False)]
+        runs += [(f'Simulator[split={sp}]', (lambda prng, sp=sp: cirq.Simulator(seed=prng, dtype=np.complex128, split_untangled_states=sp)), 'sv') for sp in (True, False)]
+        for sname, mk, kind in runs:
+            def once(prng, mk=mk, kind=kind):
+                r = mk(prng).simulate(circuit, qubit_order=qs)
+                arr = r.final_density_matrix if kind == 'dm' else r.final_state_vector
+                return tuple(np.round(arr, 9).reshape(-1).tolist())
+            try:
+                d = enumerate_branches(once, max_branches=300 if ctx.tier == 'quick' else 2000)
+            except RuntimeError:
+                ctx.count('check', 'measured-noisy:too-many')
+                continue
+            dim = 2 ** len(qs)
+            if kind == 'dm':
+                rho = sum(p * np.array(v).reshape(dim, dim) for v, p in d.items())
+            else:
+                rho = sum(p * np.outer(np.array(v), np.conj(np.array(v))) for v, p in d.items())
+            ctx.count('check', f'measured-noisy:{kind}')
+            if abs(sum(d.values()) - 1) > 1e-6 or not np.allclose(rho, want, atol=1e-5):
+                ctx.report_witness(f'dm:measured:{sname.split("[")[0]}', f'{sname}: the final states after mid-circuit measurements, averaged over the outcomes, are not the channel sequence applied in order',
+                                   {'lines': [{'circuit': repr(circuit), 'simulator': sname}], 'impl_out': [repr(np.round(rho, 6).tolist())], 'spec_out': [repr(np.round(want, 6).tolist())],
+                                    'theorem_or_correspondence': 'Spec.Circuit.runDM (Σ K ρ K†, measurements as projective channels)'})
+
+
+def check_apply_channel_only(ctx, cirq):
+    """a channel that only says how it acts on a density tensor (`_apply_channel_`): cirq.kraus, the superoperator, the Choi matrix and
+    the density-matrix simulator all describe that action (complex Kraus operators that are not closed under conjugation)"""
+    rng = ctx.substream('apply-channel-only')
+
+    class OnlyApply(cirq.Gate):
+        def __init__(self, ks, nq):
+            self.ks, self.nq = ks, nq
+
+        def _num_qubits_(self):
+            return self.nq
+
+        def _apply_channel_(self, args):
+            n = self.nq
+            out = np.zeros_like(args.target_tensor)
+            for k in self.ks:
+                kt = k.reshape((2,) * (2 * n))
+                t = cirq.targeted_left_multiply(kt, args.target_tensor, args.left_axes)
+                t = cirq.targeted_left_multiply(np.conjugate(kt), t, args.right_axes)
+                out += t
+            args.target_tensor[...] = out
+            return args.target_tensor
+
+    for it in range(6 if ctx.tier == 'quick' else 60):
+        nq = rng.choice([1, 1, 2])
+        d = 2 ** nq
+        us = [gen.rand_unitary(rng, d) for _ in range(rng.choice([2, 3]))]
+        ws = np.array([rng.random() + 0.1 for _ in us])
+        ws = ws / ws.sum()
+        ks = [np.sqrt(w) * u for w, u in zip(ws, us)]
+        g = OnlyApply(ks, nq)
+        want_super = sum(np.kron(k, np.conjugate(k)) for k in ks)
+        ctx.case(['apply-channel-only', nq, it], True)
+        ctx.count('check', 'apply-channel-only')
+        got_k = cirq.kraus(g, None)
+        got_super = None if got_k is None else sum(np.kron(k, np.conjugate(k)) for k in got_k)
+        qs = cirq.LineQubit.range(nq)
+        rho0 = np.zeros((d, d), dtype=complex)
+        psi = gen.rand_unitary(rng, d)[:, 0]
+        rho0 = np.outer(psi, psi.conj())
+        sim = cirq.DensityMatrixSimulator(dtype=np.complex128).simulate(cirq.Circuit(g.on(*qs)), initial_state=rho0.astype(np.complex128), qubit_order=qs).final_density_matrix
+        want_rho = sum(k @ rho0 @ k.conj().T for k in ks)
+        bad = []
+        if not np.allclose(sim, want_rho, atol=1e-7):
+            bad.append('DensityMatrixSimulator')
+        if got_super is not None and not np.allclose(got_super, want_super, atol=1e-7):
+            bad.append('cirq.kraus')
+        if got_k is not None:
+            so = cirq.kraus_to_superoperator(got_k)
+            if not np.allclose(so, want_super, atol=1e-7):
+                bad.append('kraus_to_superoperator')
+        if bad:
+            ctx.report_witness('kraus:apply-channel-only', f'for a channel defined by _apply_channel_ alone, {", ".join(bad)} do(es) not describe the action Σ K ρ K†',
+                               {'lines': [{'kraus': [repr(np.round(k, 6).tolist()) for k in ks]}], 'impl_out': [bad], 'spec_out': ['Σ K ρ K†'], 'theorem_or_correspondence': 'kraus / superoperator coherence'})
 
 
 def check_noisy_runs(ctx, cirq, n):
